@@ -508,5 +508,83 @@ theorem C04_crash_any_order (H : Bytes → Bytes) (recFirst : Bool) (P0 : PStore
     | n + 2 =>
       have h2 := C04_crash H P0 b told 2 hold hf
       simpa [saveStreamOrd, saveStream, PStore.applyAll, PStore.apply] using h2
+/-- non-vacuity of `C04_crash_any_order`: the save is cut in the middle (one of its two writes done), in either order;
+    an old one-leaf tree survives -/
+example (recFirst : Bool) :
+    let old : Ref := ⟨[], .leaf 1 [1] [65]⟩
+    let b := (Trie.open [] .empty 2).applyEvents id (insertE 2 [66] .empty [] [2]).2
+    Resolves id (Map.get (({ nodes := [(old.key id, old.encode id)] } : PStore).applyAll ((saveStreamOrd id recFirst b).take 1)).nodes)
+      (.leaf 1 [1] [65]) [] := by
+  intro old b
+  refine (C04_crash_any_order id recFirst _ b (.leaf 1 [1] [65]) 1 ?_ ?_).1
+  · intro r hr; simp [refs] at hr; subst hr; simp [Map.get, old]
+  · intro a c ha hc hk
+    have hb : b.cc.changes = [(Ref.key id ⟨[], .leaf 2 [2] [66]⟩, ⟨none, ⟨[], .leaf 2 [2] [66]⟩⟩)] := by
+      simp [b, insertE, Trie.applyEvents, Trie.applyEvent, Trie.insertNode, Trie.open, Collector.addChange, Map.put, Map.del]
+    rw [hb] at ha hc
+    simp [refs] at ha hc
+    rcases ha with ha | ha <;> rcases hc with hc | hc
+    · rw [ha, hc]
+    · subst ha; subst hc; simp [Ref.key, key, le64] at hk
+      exact absurd (congrArg List.getLast? hk) (by simp)
+    · subst ha; subst hc; simp [Ref.key, key, le64] at hk
+      exact absurd (congrArg List.getLast? hk) (by simp)
+    · rw [← ha, ← hc]
+
+/-- non-vacuity of `C04_reopen_reads`: a store that holds the node of a one-leaf tree (32-byte keys); reading the root
+    key back through the decoder answers the lookup of the tree -/
+example (p : List Nib) :
+    let H : Bytes → Bytes := fun _ => List.replicate 32 0
+    let get : Bytes → Option Bytes := fun _ => some (Ref.encode H ⟨[], .leaf 1 [] [65]⟩)
+    Verif.Partial.lookupP (Verif.Partial.buildP get 2 (key H (.leaf 1 [] [65]) [])) (p.map nibChar)
+      = Verif.Partial.ofOpt (lookup (.leaf 1 [] [65]) p) := by
+  intro H get
+  apply C04_reopen_reads H (by intro b; simp [H]) get (.leaf 1 [] [65]) (by simp [WFn])
+  · intro r hr; simp [refs] at hr; subst hr; rfl
+  · simp [Verif.Partial.toP, Verif.Partial.depth]
+/-- the events of the witness chain of `C04_all_roots`: round 1 inserts `[3] := 65` (version 1), round 2 deletes it
+    (version 2), later rounds do nothing -/
+def xE : Nat → List Event := fun i =>
+  if i = 1 then (insertE 1 [65] .empty [] [3]).2 ++ []
+  else if i = 2 then (deleteE 2 (.leaf 1 [3] [65]) [] [3]).2 ++ [] else []
+
+def xT : Nat → Node := fun i => if i = 1 then .leaf 1 [3] [65] else .empty
+
+/-- the persistent store after each round's save -/
+def xP : Nat → PStore
+  | 0 => {}
+  | i + 1 => (xP i).applyAll (saveStream id ((Trie.open [] .empty (i + 1)).applyEvents id (xE (i + 1))))
+
+/-- non-vacuity of `C04_all_roots`: two non-empty rounds (an insert, then a delete), every saved root resolves later -/
+example : ∀ i j, j ≤ i → Resolves id (Map.get (xP i).nodes) (xT j) [] := by
+  apply C04_all_roots id (fun r => r = ⟨[], .leaf 1 [3] [65]⟩) (by intro a c ha hc _; rw [ha, hc]) (fun i v => v = i) xT xE
+    (fun i => Trie.open [] .empty (i + 1)) xP (fun _ => ⟨rfl, rfl⟩)
+  · intro i
+    match i with
+    | 0 =>
+      have hround : RoundEvents 1 .empty ((insertE 1 [65] .empty [] [3]).2 ++ []) (.leaf 1 [3] [65]) := by
+        apply RoundEvents.ins _ _ _ _ _ (by simp)
+        have h1 : (insertE 1 [65] .empty [] [3]).1 = .leaf 1 [3] [65] := by simp [insertE]
+        rw [h1]; exact RoundEvents.nil _
+      have := TrieRun.own (H := id) (U := fun r => r = ⟨[], .leaf 1 [3] [65]⟩) (Vok := fun v => v = 1) 1 _ _ _ _ [] rfl hround
+        (by intro a ha; simp [insertE, eventRefs] at ha; exact ha) (TrieRun.nil _)
+      simpa [xT, xE] using this
+    | 1 =>
+      have hd : deleteE 2 (.leaf 1 [3] [65]) [] [3] = (.removed, (deleteE 2 (.leaf 1 [3] [65]) [] [3]).2) := by
+        simp [deleteE, splitCommon]
+      have hround : RoundEvents 2 (.leaf 1 [3] [65]) ((deleteE 2 (.leaf 1 [3] [65]) [] [3]).2 ++ []) .empty :=
+        RoundEvents.delLast _ [3] _ _ _ hd (RoundEvents.nil _)
+      have := TrieRun.own (H := id) (U := fun r => r = ⟨[], .leaf 1 [3] [65]⟩) (Vok := fun v => v = 2) 2 _ _ _ _ [] rfl hround
+        (by intro a ha; simp [deleteE, splitCommon, eventRefs] at ha; exact ha) (TrieRun.nil _)
+      simpa [xT, xE] using this
+    | i + 2 =>
+      have h1 : xE (i + 2 + 1) = [] := by simp [xE]
+      have h2 : xT (i + 2) = .empty := by simp [xT]
+      have h3 : xT (i + 2 + 1) = .empty := by simp [xT]
+      rw [h1, h2, h3]; exact TrieRun.nil _
+  · intro i; rfl
+  · intro r hr; simp [xT, refs] at hr
+  · exact Or.inl rfl
+  · intro r hr; simp [xT, refs] at hr
 
 end Verif.Props.C04
